@@ -880,12 +880,15 @@ LEVEL_TEXT = ('Machine-checked Coq theorems (22, no axioms) about a Gallina mode
               'an expansion is a start codon; every bundled id resolves to such a table. TESTED ONLY (differential correspondence with '
               'the real code on every run plus an independent NCBI gc.prt oracle): that the model is what cane.translate / gcode / the '
               'wrappers do, object identity (returns the receiver, in place), the defaults of the signature, independence of warn, the '
-              'exception class, KeyError for unknown table ids.')
+              'exception class, KeyError for unknown table ids, and state independence: histories of several calls in one process (same text / '
+              'same object with different astop, gap, gap_after, check options and tables in both orders, in-place edits between calls, '
+              'baskets sharing an object or holding a member that raises), each step compared with the pure model on the current value.')
 LEVEL_NOTE = ('Trusted: Coq kernel/vm_compute, translators tools/gens/gcode.py and c07.py, the correspondence harness, CPython str/dict/set. '
               'Modelled rather than verified: cane.translate (warn only adds warnings and is modelled as a no-op; cases with warn=True '
               'are compared on the returned value / exception), gcode() lookup, BioSeq.__init__ upper(), BioSeq/BioBasket.translate. astop '
               'and gap are single Latin-1 characters. Measured statement coverage of the modelled functions in the quick tier: gcode 12/12, '
-              'BioSeq.translate 5/5, BioBasket.translate 4/4, translate 59/61; the two missing statements (the body of '
+              'BioSeq.translate 5/5, BioBasket.translate 4/4, translate 59/61 (measured on the single-call cases; the histories run in child '
+              'processes forked from a process that never executed a case, so that each history is self-contained and replayable); the two missing statements (the body of '
               '"elif warn and codon in gc.astops" in the for/else clause, cane.py:456-457) are unreachable: the left-over codon has fewer '
               'than three letters and astops holds three-letter codons only (Coq: short_not_in_set). All theorems closed under the global '
               'context (no axioms).')
